@@ -1,3 +1,139 @@
-import VaxisModel.Model.SimpleList
+/-
+C19 — Lists and pagers: selection always valid and visible, content complete.
+Property theorems only (helper lemmas live in Lemmas/).
+-/
+import VaxisModel.Model.ListGen
+import VaxisModel.Lemmas.SimpleList
+import VaxisModel.Lemmas.Pager
+import VaxisModel.Lemmas.Scrollbar
+
 namespace VaxisModel.Props.C19
+open VaxisModel VaxisModel.Model
+
+/-! ## widgets/list
+
+`SimpleList.gen` carries the `m.index = …` expressions and the empty-list guard exactly as the
+extractor found them in widgets/list/list.go on this run, so the theorems below are re-checked
+against the current source. -/
+
+section SimpleList
+open VaxisModel.Model.SimpleList VaxisModel.Lemmas.SimpleList
+
+/-- **No panic, index in range** — for every item count (including 0) and every history of
+    Down/Up/Home/End/PageDown/PageUp/SetItems/Draw with any window heights (including 0): no
+    operation panics, the offset stays non-negative, and whenever there are items the index
+    satisfies `0 ≤ index < n` (with no items it is 0). -/
+theorem simple_list_safe (n : Nat) (ops : List Op) :
+    ∃ s, run gen (new n) ops = .ok s ∧ 0 ≤ s.offset ∧ 0 ≤ s.index ∧
+      (0 < s.n → s.index < (s.n : Int)) ∧ (s.n = 0 → s.index = 0) := by
+  obtain ⟨s, he, h1, h2, h3⟩ := run_ok ops (new n) (inv_new n)
+  exact ⟨s, he, h1, h2, by omega, by omega⟩
+
+/-- **Selected row inside the viewport** — after any history, a `Draw` into a window of height
+    `h > 0` does not panic and prints only rows `< h` showing existing items, a row is drawn
+    selected iff it shows item `index`, and when there are items such a row exists. -/
+theorem simple_list_selected_visible (n : Nat) (ops : List Op) (h : Nat) (hh : 0 < h) :
+    ∃ s, run gen (new n) ops = .ok s ∧ ∃ s' rows, draw gen s h = .ok (s', rows) ∧
+      s'.index = s.index ∧
+      (∀ r ∈ rows, r.row < h ∧ 0 ≤ r.item ∧ r.item < (s.n : Int) ∧ (r.sel = true ↔ r.item = s.index)) ∧
+      (0 < s.n → ∃ r ∈ rows, r.sel = true ∧ r.item = s.index) := by
+  obtain ⟨s, he, hi⟩ := run_ok ops (new n) (inv_new n)
+  obtain ⟨s', rows, hd, _, _, hidx, hrows⟩ := draw_ok s h hi
+  refine ⟨s, he, s', rows, hd, hidx, ?_, ?_⟩
+  · by_cases hn : 0 < s.n
+    · obtain ⟨_, hr⟩ := hrows hn
+      obtain ⟨f1, f2, _⟩ := follow_bounds s h hi hn
+      intro r hmem
+      rw [hr, mem_rows] at hmem
+      obtain ⟨i, hlt, rfl⟩ := hmem
+      dsimp only
+      refine ⟨by omega, by omega, by omega, ?_⟩
+      simp only [beq_iff_eq]
+      omega
+    · have h0 : s.n = 0 := by omega
+      have : draw gen s h = .ok (s, []) := by
+        simp [draw, gen, Gen.ListFacts.drawEmptyGuard, h0]
+      rw [this] at hd
+      cases hd
+      intro r hr; cases hr
+  · intro hn
+    obtain ⟨_, hr⟩ := hrows hn
+    obtain ⟨f1, f2, f3⟩ := follow_bounds s h hi hn
+    obtain ⟨f4, f5⟩ := f3 hh
+    obtain ⟨_, _, h3⟩ := hi
+    refine ⟨{ row := (s.index - follow s h).toNat, item := follow s h + ((s.index - follow s h).toNat : Int), sel := (((s.index - follow s h).toNat : Int) == s.index - follow s h) }, ?_, ?_, ?_⟩
+    · rw [hr, mem_rows]
+      exact ⟨(s.index - follow s h).toNat, by omega, rfl⟩
+    · simp only [beq_iff_eq]; omega
+    · show follow s h + ((s.index - follow s h).toNat : Int) = s.index
+      omega
+
+/-- Non-vacuity: a concrete history on three items. -/
+example : (match run gen (new 3) [.down, .down, .draw 2, .setItems 1, .draw 2, .«end»] with
+    | .ok s => s.index == 0 && s.offset == 0 | .error _ => false) = true := by decide
+
+end SimpleList
+
+/-! ## widgets/pager
+
+Graphemes and their widths are parameters: the theorems hold for every list of characters
+`vaxis.Characters` may return (any bytes, any widths, even negative ones). -/
+
+section Pager
+open VaxisModel.Model.Pager VaxisModel.Lemmas.Pager
+
+/-- The source appends a non-empty unterminated last line in `Layout` (regenerated fact). -/
+theorem layout_flushes_last : Gen.ListFacts.layoutFlushesLast = true := by decide
+
+/-- **Every line is presented** — for every text and every width, the laid-out lines concatenated
+    are exactly the text's characters without the newline characters (nothing lost, nothing
+    duplicated, order kept — this includes a last line that has no terminator), and every line
+    respects the width: it has at most one character or all but its last character are narrower
+    than the window (the last one, possibly a wide grapheme, is what reached the width). -/
+theorem pager_complete (w : Int) (cs : List Ch) :
+    (layout Gen.ListFacts.layoutFlushesLast w cs).flatten = cs.filter (fun c => !c.isNl) ∧
+    ∀ l ∈ layout Gen.ListFacts.layoutFlushesLast w cs, l.length ≤ 1 ∨ widthSum l.dropLast < w := by
+  rw [layout_flushes_last]
+  exact ⟨layout_flatten w cs, layout_good true w cs⟩
+
+/-- **Offset clamped** — after `Draw` into a `w × h` window from any pager state (any text, any
+    offset however large or negative, any previous width) the offset satisfies
+    `0 ≤ Offset ≤ max 0 (lines − h)`, and the lines are those of the text at width `w` whenever the
+    width changed. -/
+theorem pager_offset_clamped (s : St) (w h : Nat) :
+    let s' := (draw Gen.ListFacts.layoutFlushesLast s w h).1
+    0 ≤ s'.offset ∧ s'.offset ≤ max 0 ((s'.lines.length : Int) - h) ∧
+      ((w : Int) ≠ s.width → s'.lines = layout Gen.ListFacts.layoutFlushesLast w s.text) := by
+  simp only [draw]
+  split
+  · rename_i hw
+    exact ⟨(clamp_bounds _ _ _).1, (clamp_bounds _ _ _).2, fun _ => rfl⟩
+  · rename_i hw
+    exact ⟨(clamp_bounds _ _ _).1, (clamp_bounds _ _ _).2, fun h => absurd h hw⟩
+
+/-- Non-vacuity: "ab", newline, "c" without terminator at width 2 gives the lines "ab", "", "c"
+    (the empty line is the newline met right after the wrap). -/
+example :
+    (layout true 2 [⟨[97], 1⟩, ⟨[98], 1⟩, ⟨[10], 0⟩, ⟨[99], 1⟩]).map (·.map (·.bytes))
+      = [[[97], [98]], [], [[99]]] := by decide
+
+end Pager
+
+/-! ## widgets/scrollbar -/
+
+section Scrollbar
+open VaxisModel.Model.Scrollbar
+
+/-- **Bar inside the track** — for every real scroll position (`1 ≤ view < total`,
+    `0 ≤ top ≤ total − view`) and every window height `h ≥ 1`, the scrollbar draws a bar of at least
+    one row that lies entirely within rows `0 … h−1`. -/
+theorem scrollbar_in_track (total view top h : Int)
+    (hv : 1 ≤ view) (hvt : view < total) (ht0 : 0 ≤ top) (ht : top ≤ total - view) (hh : 1 ≤ h) :
+    ∃ b, bar total view top h = some b ∧ 0 ≤ b.top ∧ 1 ≤ b.len ∧ b.top + b.len ≤ h :=
+  Lemmas.Scrollbar.bar_in_track total view top h hv hvt ht0 ht hh
+
+example : bar 10 3 7 5 = some ⟨3, 1⟩ := by decide
+
+end Scrollbar
+
 end VaxisModel.Props.C19
